@@ -305,3 +305,39 @@ Proof.
     destruct (Nat.ltb_spec i (wst t)) as [A|A]; destruct (Nat.ltb_spec y (wst t)) as [B|B]; lia.
 Qed.
 End Window.
+
+(* ---------- generic cyclic distance from a start s ---------- *)
+Section Cyc.
+Variables n s : nat.
+Hypothesis n_pos : 0 < n.
+Hypothesis s_lt : s < n.
+Definition crank (i : nat) : nat := (i + n - s) mod n.
+Definition cpos (k : nat) : nat := (s + k) mod n.
+Lemma crank_lt i : crank i < n. Proof. apply Nat.mod_upper_bound. lia. Qed.
+Lemma cpos_lt k : cpos k < n. Proof. apply Nat.mod_upper_bound. lia. Qed.
+Lemma crank_cases i : i < n -> (s <= i /\ crank i = i - s) \/ (i < s /\ crank i = i + n - s).
+Proof.
+  intros Hi. unfold crank. destruct (Nat.le_gt_cases s i) as [L|L].
+  - left. split; [exact L|]. symmetry. apply (Nat.mod_unique _ _ 1); lia.
+  - right. split; [exact L|]. apply Nat.mod_small. lia.
+Qed.
+Lemma cpos_cases k : k < n -> (s + k < n /\ cpos k = s + k) \/ (n <= s + k /\ cpos k = s + k - n).
+Proof.
+  intros Hk. unfold cpos. destruct (Nat.lt_ge_cases (s + k) n) as [L|L].
+  - left. split; [exact L|apply Nat.mod_small; exact L].
+  - right. split; [exact L|]. symmetry. apply (Nat.mod_unique _ _ 1); lia.
+Qed.
+Lemma crank_cpos k : k < n -> crank (cpos k) = k.
+Proof.
+  intros Hk. destruct (cpos_cases k Hk) as [[L E]|[L E]]; destruct (crank_cases (cpos k) (cpos_lt k)) as [[L' E']|[L' E']]; lia.
+Qed.
+Lemma cpos_crank i : i < n -> cpos (crank i) = i.
+Proof.
+  intros Hi. pose proof (crank_lt i) as Hr.
+  destruct (crank_cases i Hi) as [[L E]|[L E]]; destruct (cpos_cases (crank i) Hr) as [[L' E']|[L' E']]; lia.
+Qed.
+Lemma crank_inj i y : i < n -> y < n -> crank i = crank y -> i = y.
+Proof. intros Hi Hy E. rewrite <- (cpos_crank i Hi), <- (cpos_crank y Hy), E. reflexivity. Qed.
+Lemma cpos_inj k k' : k < n -> k' < n -> cpos k = cpos k' -> k = k'.
+Proof. intros Hk Hk' E. rewrite <- (crank_cpos k Hk), <- (crank_cpos k' Hk'), E. reflexivity. Qed.
+End Cyc.
